@@ -71,3 +71,44 @@ Proof.
               repeat (split || constructor || reflexivity || discriminate || lia)).
   - vm_compute. reflexivity.
 Qed.
+
+(* ---- caller-supplied labels: fit(X, reinsert_indices=...) (Proofs/BirchLabels.v) ----
+   [ops_wf_l] is [ops_wf] with OFit allowed to carry [Some labels] of the right length;
+   [labels_run] follows the run and accumulates the labels held: a successful fit adds its labels
+   (given, or the default numbering), a fit failing part-way adds those inserted before the
+   failure, reset clears, every other operation keeps them. *)
+From BB Require Import Proofs.BirchLabels.
+From Coq Require Import Permutation.
+
+(* for ANY labels (duplicates included) the reported clusters hold exactly the multiset of labels
+   fitted since the last reset, and num_fitted_fps is their number *)
+Theorem C01_labels : forall fexp cfg0 ops,
+  2 <= c_bf cfg0 -> ops_wf_l fexp (init cfg0) ops -> ops_perms_ok fexp (init cfg0) ops ->
+  let st := run fexp cfg0 ops in
+  Permutation (List.concat (clusters st)) (labels_run fexp (init cfg0) ops []) /\
+  nfit st = zlen (labels_run fexp (init cfg0) ops []).
+Proof. exact run_labels. Qed.
+
+(* ... and when the labels are distinct, every label is in exactly one cluster *)
+Theorem C01_labels_partition : forall fexp cfg0 ops,
+  2 <= c_bf cfg0 -> ops_wf_l fexp (init cfg0) ops -> ops_perms_ok fexp (init cfg0) ops ->
+  NoDup (labels_run fexp (init cfg0) ops []) ->
+  let st := run fexp cfg0 ops in
+  NoDup (List.concat (clusters st)) /\
+  (forall x, In x (labels_run fexp (init cfg0) ops []) <-> exists b, In b (clusters st) /\ In x b) /\
+  nfit st = zlen (List.concat (clusters st)).
+Proof. exact run_labels_partition. Qed.
+
+(* refinement with caller labels: succeeds keeping the labels, or fails leaving the clusters alone *)
+Theorem C01_refine_labels : forall fexp st X im nl,
+  st_inv st -> op_wf_l st (ORefine X im nl) ->
+  let st' := fst (do_refine fexp st X im nl) in
+  st_inv st' /\ nfit st' = nfit st /\ Permutation (mem_ids st') (mem_ids st) /\
+  (snd (do_refine fexp st X im nl) = Err -> clusters st' = clusters st).
+Proof.
+  intros fexp st X im nl H1 H2. cbv zeta.
+  destruct (do_refine_labels fexp st X im nl H1 H2) as (A & _ & B & C & D).
+  refine (conj A (conj B (conj C _))). intro E. exact (proj2 (proj2 (proj2 (proj2 (D E))))).
+Qed.
+
+Example C01_labels_nonvacuous := labels_nonvacuous_partition.
